@@ -97,6 +97,9 @@ func v17Pipeline(x *vexp.X, sc *v17Scenario) (*vhook.Sched, func()) {
 		ctl.WriteControl(&WriteControlConfig{Request: "START", Path: env.dir, WriteLJH22: true, WriteLJH3: true}, &ok)
 		for i := 0; i < 2; i++ {
 			src.demandBlock()
+			// read-only requests are served by the client's thread while the block is being processed
+			zero, comment := 0, ""
+			ctl.ReadComment(&zero, &comment)
 			<-src.doneCh
 		}
 		var name string
@@ -222,6 +225,29 @@ func (a *v17Abaco) ProcessSegments(b *dataBlock) error {
 	return err
 }
 
+// v17ExtTrigPackets: external-trigger packets as the Abaco firmware sends them (payload label "value,active,t", no
+// channel offset): the first three packets of the repository's testData/timer_packets.bin, decoded anew per call.
+func v17ExtTrigPackets() []*packets.Packet {
+	dir := os.Getenv("VERIF_REPO_DIR")
+	if dir == "" {
+		dir = "/repo"
+	}
+	f, err := os.Open(filepath.Join(dir, "testData", "timer_packets.bin"))
+	if err != nil {
+		panic("harness: " + err.Error())
+	}
+	defer f.Close()
+	var out []*packets.Packet
+	for i := 0; i < 3; i++ {
+		p, err := packets.ReadPacket(f)
+		if err != nil || !p.IsExternalTrigger() {
+			panic(fmt.Sprintf("harness: packet %d of timer_packets.bin: err=%v", i, err))
+		}
+		out = append(out, p)
+	}
+	return out
+}
+
 // v17NewAbaco builds a real AbacoSource fed by a scripted packet producer (two groups, one lagging, one lost
 // packet) and returns it with the clock thread that stands in for the reader's ticker.
 func v17NewAbaco() (*v17Abaco, func(started chan struct{}) func()) {
@@ -235,7 +261,8 @@ func v17NewAbaco() (*v17Abaco, func(started chan struct{}) func()) {
 	}
 	// three reads: everything / group 1 lags and loses a packet / the rest
 	mk := func(g, k int) *packets.Packet { return v03Packet(l, l.groups[g], v03Base+v03NSampled+k) }
-	prod.batches = [][]*packets.Packet{{mk(0, 0), mk(0, 1), mk(1, 0)}, {mk(0, 2), mk(1, 1), mk(1, 3)}, {mk(0, 3), mk(1, 4), mk(0, 4)}}
+	ext := v17ExtTrigPackets() // external-trigger packets arrive interleaved with the data packets
+	prod.batches = [][]*packets.Packet{{mk(0, 0), ext[0], mk(0, 1), mk(1, 0)}, {mk(0, 2), mk(1, 1), ext[1], mk(1, 3)}, {mk(0, 3), mk(1, 4), mk(0, 4), ext[2]}}
 	as.producers = []PacketProducer{prod}
 	as.unwrapOpts = AbacoUnwrapOptions{}
 	v17Ticks = make(chan time.Time)
@@ -319,8 +346,15 @@ func v17NewLancero() (*v17Lancero, *v04Card) {
 		sc.ext[f] = make([]bool, g.nrows)
 	}
 	sc.ext[4][1], sc.ext[9][0] = true, true
-	for _, nf := range []int{3, 7, 11, 15, 20} { // start-up read, then one read per tick
-		sc.avail = append(sc.avail, nf*frameSize)
+	// one word is lost at the start of the third read (frame 7, word 1): the reader re-aligns and reports a drop
+	sc.gapA = 7*frameSize + 4
+	sc.gapB = sc.gapA + 4
+	for i, nf := range []int{3, 7, 11, 15, 20} { // start-up read, then one read per tick
+		extra := 0
+		if i == 1 {
+			extra = 4 // the read before the loss ends one word into frame 7, so that frame 7 starts the next read
+		}
+		sc.avail = append(sc.avail, nf*frameSize+extra)
 	}
 	card, _ := sc.build()
 	ls := &LanceroSource{}
@@ -437,7 +471,7 @@ func TestVerifC17(t *testing.T) {
 	if r.Thorough() {
 		pb = 2
 	}
-	r.SetBound(fmt.Sprintf("race-detector build; all interleavings (all select alternatives) with at most %d preemptions (life cycle) / at most as many scheduling deviations of any kind (thread choice or select alternative) from the canonical schedule (delay bounding, pipeline) of: (pipeline) one client issuing record-length, trigger, group-trigger, write-control, raw-block, comment, state-label, send-all and stop requests against a running two-channel source with pulses, LJH2.2+LJH3 writing, group trigger, record/summary/status consumers; (life cycle) Start with two concurrent Stop callers; (Abaco pipeline) real Start/readerMainLoop/getNextBlock/distributeData/CoreLoop with a scripted packet producer (two groups, one lagging, one lost packet), clock thread and Stop; (Lancero pipeline) real StartRun/launchLanceroReader/getNextBlock/ConfigureMixFraction/distributeData/CoreLoop with a scripted card (2x2 geometry, 20 frames in 5 reads, external-trigger bits), clock thread, one mix request and Stop", pb))
+	r.SetBound(fmt.Sprintf("race-detector build; all interleavings (all select alternatives) with at most %d preemptions (life cycle) / at most as many scheduling deviations of any kind (thread choice or select alternative) from the canonical schedule (delay bounding, pipeline) of: (pipeline) one client issuing record-length, trigger, group-trigger, write-control, raw-block, comment (write and read), state-label, send-all and stop requests against a running two-channel source with pulses, LJH2.2+LJH3 writing, group trigger, record/summary/status consumers; (life cycle) Start with two concurrent Stop callers; (Abaco pipeline) real Start/readerMainLoop/getNextBlock/distributeData/CoreLoop with a scripted packet producer (two groups, one lagging, one lost packet, external-trigger packets in between), clock thread and Stop; (Lancero pipeline) real StartRun/launchLanceroReader/getNextBlock/ConfigureMixFraction/distributeData/CoreLoop with a scripted card (2x2 geometry, 20 frames in 5 reads, external-trigger bits, one lost word so that the reader re-aligns), clock thread, one mix request and Stop", pb))
 	scs := []*v17Scenario{
 		{name: "pipeline", run: v17Pipeline, bound: pb}, // delay-bounded (see vhook.Options.DelayBound)
 		{name: "lifecycle", run: v17LifeCycle, bound: pb},
